@@ -203,7 +203,17 @@ fn gen_op(r: &mut Rng, nids: usize) -> SymOp {
         4..=6 => SymOp::AddEdge(node(r), node(r), if r.chance(1, 10) { gen_float(r) } else { r.range(-4, 4) as f32 / 2.0 }),
         7 => SymOp::RemoveEdge(node(r), node(r)),
         8 => SymOp::SetState(node(r), if r.chance(1, 6) { gen_int(r) } else { r.range(-1, 3) as i32 }),
-        9 => SymOp::SetWeight(node(r), node(r), r.range(-4, 4) as f32 / 2.0),
+        9 => {
+            // usually a half-integer; sometimes the neighbouring float of one (a change far below any
+            // tolerance must still be a change), sometimes a boundary value (inf, NaN, subnormal)
+            let base = r.range(-4, 4) as f32 / 2.0;
+            let w = match r.below(10) {
+                0..=5 => base,
+                6..=8 => f32::from_bits(base.to_bits() + 1),
+                _ => gen_float(r),
+            };
+            SymOp::SetWeight(node(r), node(r), w)
+        }
         10 => SymOp::GetState(node(r)),
         11 => SymOp::GetWeight(node(r), node(r)),
         12 => {
@@ -236,6 +246,37 @@ pub fn run(seed: u64, tier: &str, out: &mut dyn FnMut(String)) {
             }
             seq.push(op);
         }
+        out(observe(&seq));
+    }
+    // directed probes of the diff clause: build, snapshot, apply ONE small change (or none), diff
+    let m = if tier == "thorough" { 6000 } else { 600 };
+    for case in 0..m {
+        let mut r = Rng::for_case(seed, "graphdiff", case);
+        let k = 2 + r.below(3) as i64;
+        let mut seq: Vec<SymOp> = (0..k).map(|_| SymOp::AddNode(r.range(-1, 3) as i32)).collect();
+        let mut edges: Vec<(i64, i64, f32)> = vec![];
+        for _ in 0..(1 + r.below(4)) {
+            let (o, d) = (r.below(k as u64) as i64, r.below(k as u64) as i64);
+            let w = match r.below(8) {
+                0 => f32::INFINITY,
+                1 => f32::NEG_INFINITY,
+                2 => gen_float(&mut r),
+                _ => r.range(-4, 4) as f32 / 2.0,
+            };
+            seq.push(SymOp::AddEdge(o, d, w));
+            edges.retain(|e| !(e.0 == o && e.1 == d));
+            edges.push((o, d, w));
+        }
+        seq.push(SymOp::Snapshot);
+        let (o, d, w) = *r.pick(&edges);
+        match r.below(6) {
+            0 => {}
+            1 | 2 => seq.push(SymOp::SetWeight(o, d, f32::from_bits(w.to_bits().wrapping_add(1)))),
+            3 => seq.push(SymOp::SetWeight(o, d, w)),
+            4 => seq.push(SymOp::SetState(o, r.range(-1, 3) as i32)),
+            _ => seq.push(SymOp::SetWeight(o, d, w + 1e-8)),
+        }
+        seq.push(SymOp::DiffSnap);
         out(observe(&seq));
     }
 }
